@@ -171,6 +171,13 @@ func (s *Stream) ReadRune() (r rune, size int, err error) {
 }
 
 func (s *Stream) UnreadRune() error {
+	// Un-reading the end of file: the last ReadRune found nothing left and took the stream past its end.
+	// Giving that back leaves the stream at its end, where the next read delivers end_of_file.
+	if s.streamType == streamTypeText && s.endOfStream == endOfStreamPast && s.lastRuneSize == 0 && s.buf != (bufReader{}) {
+		s.endOfStream = endOfStreamAt
+		return nil
+	}
+
 	if err := s.initRead(); err != nil {
 		return err
 	}
